@@ -30,33 +30,48 @@ func c25(p *an.Prog, r *an.R, tier string) {
 	info := addD.Pkg.TypesInfo
 	// fields accumulated with += in Add
 	acc := map[string]bool{}
+	addBodies := []ast.Node{addD.Decl.Body}
 	ast.Inspect(addD.Decl.Body, func(n ast.Node) bool {
-		as, ok := n.(*ast.AssignStmt)
-		if ok && as.Tok == token.ADD_ASSIGN {
-			if se, ok := ast.Unparen(as.Lhs[0]).(*ast.SelectorExpr); ok && info.Selections[se] != nil {
-				acc[se.Sel.Name] = true
-			}
-		}
-		// s.X = s.X + o.X (either operand order)
-		if ok && as.Tok == token.ASSIGN && len(as.Lhs) == 1 && len(as.Rhs) == 1 {
-			se, isS := ast.Unparen(as.Lhs[0]).(*ast.SelectorExpr)
-			be, isB := ast.Unparen(as.Rhs[0]).(*ast.BinaryExpr)
-			if isS && isB && be.Op == token.ADD && info.Selections[se] != nil {
-				lhs := types.ExprString(se)
-				x, y := ast.Unparen(be.X), ast.Unparen(be.Y)
-				other := y
-				if types.ExprString(y) == lhs {
-					other = x
-				} else if types.ExprString(x) != lhs {
-					return true
-				}
-				if os, isO := other.(*ast.SelectorExpr); isO && os.Sel.Name == se.Sel.Name {
-					acc[se.Sel.Name] = true
+		if c, ok := n.(*ast.CallExpr); ok {
+			if hf := an.Callee(info, c); hf != nil && hf.Pkg() == addD.Pkg.Types && hf.Name() != "Add" {
+				if sig, ok := hf.Type().(*types.Signature); ok && sig.Recv() != nil && an.NamedOf(sig.Recv().Type()) == statsT {
+					if hd := p.Decl(hf); hd != nil && hd.Decl.Body != nil {
+						addBodies = append(addBodies, hd.Decl.Body)
+					}
 				}
 			}
 		}
 		return true
 	})
+	for _, addBody := range addBodies {
+		ast.Inspect(addBody, func(n ast.Node) bool {
+			as, ok := n.(*ast.AssignStmt)
+			if ok && as.Tok == token.ADD_ASSIGN {
+				if se, ok := ast.Unparen(as.Lhs[0]).(*ast.SelectorExpr); ok && info.Selections[se] != nil {
+					acc[se.Sel.Name] = true
+				}
+			}
+			// s.X = s.X + o.X (either operand order)
+			if ok && as.Tok == token.ASSIGN && len(as.Lhs) == 1 && len(as.Rhs) == 1 {
+				se, isS := ast.Unparen(as.Lhs[0]).(*ast.SelectorExpr)
+				be, isB := ast.Unparen(as.Rhs[0]).(*ast.BinaryExpr)
+				if isS && isB && be.Op == token.ADD && info.Selections[se] != nil {
+					lhs := types.ExprString(se)
+					x, y := ast.Unparen(be.X), ast.Unparen(be.Y)
+					other := y
+					if types.ExprString(y) == lhs {
+						other = x
+					} else if types.ExprString(x) != lhs {
+						return true
+					}
+					if os, isO := other.(*ast.SelectorExpr); isO && os.Sel.Name == se.Sel.Name {
+						acc[se.Sel.Name] = true
+					}
+				}
+			}
+			return true
+		})
+	}
 	zu := an.FieldUses(info, zeroD.Decl.Body, statsT)
 	exceptions := map[string]string{
 		"Duration":    "wall-clock time of the whole request: set by the top-level searcher, not additive across shards",
@@ -389,12 +404,22 @@ func c25Sampling(p *an.Prog, r *an.R) {
 		}
 		sends++
 		hasAgg := false
-		ast.Inspect(c.Args[0], func(m ast.Node) bool {
-			if x, ok := m.(ast.Expr); ok && selField(finfo, x, aggF) {
-				hasAgg = true
-			}
-			return true
-		})
+		var scanAgg func(e ast.Node, depth int)
+		scanAgg = func(e ast.Node, depth int) {
+			ast.Inspect(e, func(m ast.Node) bool {
+				if x, ok := m.(ast.Expr); ok && selField(finfo, x, aggF) {
+					hasAgg = true
+				}
+				// the message may be built in a local first
+				if id, ok := m.(*ast.Ident); ok && depth < 3 {
+					if dd := defOf(finfo, flushD.Decl.Body, id); dd != nil && ast.Unparen(dd) != ast.Expr(id) {
+						scanAgg(dd, depth+1)
+					}
+				}
+				return true
+			})
+		}
+		scanAgg(c.Args[0], 0)
 		r.Check(hasAgg, "C25.R3", srv+".(*samplingSender).Flush/forwards-aggregate", c.Pos(), "Flush sends the aggregated statistics", "Flush sends something that does not contain the aggregated statistics")
 	}
 	r.Check(sends > 0, "C25.R3", srv+".(*samplingSender).Flush/sends", flushD.Decl.Pos(), "Flush forwards to the next sender", "Flush never sends: statistics aggregated since the last forwarded event are lost at the end of the stream")
